@@ -189,7 +189,9 @@ def run(ctx):
                 "(good, double, unmanaged frees) with call/return events (T-windows), or one ownership-table stress run (T-stress); "
                 "distinct by full event sequence; non-trivial = at least one successful call")
     ctx.assumptions += [
-        "the spinlock itself is correct (C08); the model's lock is an atomic test-and-set",
+        "the lock in PmmConc is an atomic test-and-set; that the real spinlock is one is checked by running C08's instruction-level "
+        "lock model (SpinAsm over the extracted kernel/sync sources) as part of this check",
+        "whether the allocator lock is free is asked through the lock's API (observer TryToAcquire/Release), never read from the lock word",
         "fields never assigned by AllocFrame/FreeFrame (pool bounds, the pools slice) are immutable after init: tools/lockskel "
         "derives the set of mutable fields from the assignments in the two methods",
         "tools/lockskel understands a fixed statement dictionary; anything else is reported as inconclusive and the skeleton leg "
@@ -209,7 +211,14 @@ def run(ctx):
         muts = ["MCPmmConcBug_NoReleaseOnDoubleFree", "MCPmmConcBug_BodyOutsideLock", "MCPmmConcBug_ReleaseBeforeCounter",
                 "MCPmmConcBug_NoAcquireInFree"]
     if os.environ.get("VERIF_CONC_DYNAMIC_ONLY") != "1":      # development switch: measure the dynamic legs alone
-        skel_leg(ctx, d, cfgs, muts)
+        # the allocator's lock is the spinlock of kernel/sync: "no frame held twice" and "no call blocks forever" rest on
+        # it, so the instruction-level lock model of C08 is checked on the current sources here as well
+        from checks import C08
+        C08.asm_leg(ctx, ctx.spec_dir("sync"), [("MCSpinAsmQ3", 600)] if q else
+                    [("MCSpinAsmQ3", 600), ("MCSpinAsmQ2Live", 900), ("MCSpinAsmF3", 1500), ("MCSpinAsmF4", 900)], [])
+        ctx.cov["legs"]["lock-extraction"] = ctx.cov["legs"].pop("extraction", None)
+        if not ctx.violations:
+            skel_leg(ctx, d, cfgs, muts)
     if not q:
         r = ctx.tlc(d, "MCPmmConc", "MCPmmConcT3one", coverage=True, timeout=900, name="coverage:MCPmmConcT3one")
         if r.violated or not r.ok or r.coverage_zero:
@@ -239,6 +248,10 @@ def replay(ctx, path):
     with open(path) as f:
         rep = json.load(f)["replay"]
     ctx.cov["states"] = ctx.cov["transitions"] = 1
+    if rep["kind"] == "extract" and rep["cfg"].startswith("MCSpinAsm"):
+        from checks import C08
+        C08.asm_leg(ctx, ctx.spec_dir("sync"), [(rep["cfg"], rep.get("timeout", 900))], [])
+        return None
     if rep["kind"] == "extract":
         skel_leg(ctx, ctx.spec_dir(*DIRS), [(rep["cfg"], rep.get("timeout", 900))], [])
         return None
